@@ -83,6 +83,17 @@ def _fragments(ctx, m, g):
                    for p in parts):
                 _ops_constant(ctx, m, g, where)
                 continue
+        if isinstance(a, ast.BinOp) and isinstance(a.op, ast.Mod) and isinstance(a.left, ast.Constant) \
+                and isinstance(a.left.value, str) and norm(a.right) in ('%s.op' % node_p, '(%s.op,)' % node_p):
+            convs = [c_ for c_ in CONV.findall(a.left.value) if c_ != '%']
+            if convs == ['r']:
+                ctx.ob('C12.D1', 'operator is formatted with %%r in `%s` (closed whatever its text)' % a.left.value,
+                       True, where)
+                _ops_constant(ctx, m, g, where)
+                continue
+            if convs == ['s']:
+                _ops_constant(ctx, m, g, where)
+                continue
         if t == 'repr(%s)' % node_p:
             # must be the branch for literal nodes (after the AST node classes were excluded)
             ctx.ob('C12.D1', 'literal nodes are spliced with repr() (closedness per class: D2)', True, where)
@@ -179,12 +190,15 @@ PY_OPS = {'==', '!=', '<=', '>=', '<', '>', 'and', 'or'}
 
 def _ops_constant(ctx, m, g, where):
     """node.op values come only from constants / constant Literal alternatives."""
+    if getattr(ctx, '_ops_done', False):
+        return
+    ctx._ops_done = True
     found = 0
     for node in G.walk(g.get('hs_filter')):
         a_ = node.action
         if a_ is None or isinstance(a_, G.Opaque):
             continue
-        for r in G.action_returns(a_):
+        for r in ([a_.node] if isinstance(a_, G.FuncRef) else G.action_returns(a_)):
             for c in ast.walk(r):
                 if isinstance(c, ast.Call) and norm(c.func) in ('FilterBinary', 'FilterUnary') and c.args:
                     found += 1
@@ -198,6 +212,22 @@ def _ops_constant(ctx, m, g, where):
                         else:
                             ctx.ob('C12.D1', '%s operator is the constant %r' % (norm(c.func), op.value), True,
                                    '%s:%s' % (F, node.lineno))
+                    elif isinstance(op, ast.Subscript) and isinstance(a_, G.FuncRef) \
+                            and not isinstance(op.slice, ast.Constant):
+                        # fold over `X (lit X)*`: the operator tokens are the literals between operands
+                        from .c11 import _chain, fold_coverage
+                        ch = _chain(node)
+                        st, _ = fold_coverage(a_, g)
+                        if ch is not None and st == 'ok' and ch[1] in PY_OPS:
+                            ctx.ob('C12.D1', 'fold operator token comes from the constant literal %r' % ch[1], True,
+                                   '%s:%s' % (F, node.lineno))
+                        elif ch is not None and ch[1] not in PY_OPS:
+                            ctx.violation('C12.D1', '%s::%s' % (F, node.label()), norm(c),
+                                          'chain literal %r is spliced verbatim into Python source' % ch[1],
+                                          'chain operator is not a Python boolean operator', file=F,
+                                          line=node.lineno, engine='E10')
+                        else:
+                            ctx.error('C12.D1', 'fold operator source of %s not recognised' % node.label())
                     elif isinstance(op, ast.Subscript) and norm(op.value) == 'toks' and isinstance(op.slice, ast.Constant):
                         idx = op.slice.value
                         kids = [k for k in node.children] if node.kind == 'And' else []
